@@ -39,6 +39,10 @@ func ownerOfHeader(v ssa.Value) string {
 			}
 			return "other"
 		case *ssa.Parameter:
+			if a, ok := resolveParam(x); ok {
+				v = a // a helper walked at its call site: the header it was given
+				continue
+			}
 			return "param"
 		case *ssa.Call:
 			switch calleeName(x.Common()) {
@@ -58,6 +62,8 @@ type write struct {
 	what  string // field:Name or header:Key or header:<dynamic>
 	val   string
 	at    ssa.Instruction
+	site  ssa.Instruction // at, or the call in fn through which a new helper containing at was walked
+	conds []string        // branch conditions holding at the write (call sites included)
 }
 
 // messageWrites lists stores to fields of http.Request/http.Response values and header writes in fn.
@@ -77,13 +83,13 @@ func messageWrites(fn *ssa.Function) []write {
 				if _, isAlloc := fa.X.(*ssa.Alloc); isAlloc {
 					return // building a fresh message (composite literal)
 				}
-				out = append(out, write{fn, strings.ToLower(strings.TrimPrefix(sn, "net/http.")), "field:" + fieldName(fa.X.Type(), fa.Field), describe(x.Val), ins})
+				out = append(out, write{fn, strings.ToLower(strings.TrimPrefix(sn, "net/http.")), "field:" + fieldName(fa.X.Type(), fa.Field), describe(x.Val), ins, siteOf(ins), guardsAt(ins)})
 			case "net/url.URL":
 				// req.URL.X = ...
 				base := describe(fa.X)
 				if strings.HasSuffix(base, ".URL") {
 					if _, isAlloc := fa.X.(*ssa.Alloc); !isAlloc {
-						out = append(out, write{fn, "request", "field:URL." + fieldName(fa.X.Type(), fa.Field), describe(x.Val), ins})
+						out = append(out, write{fn, "request", "field:URL." + fieldName(fa.X.Type(), fa.Field), describe(x.Val), ins, siteOf(ins), guardsAt(ins)})
 					}
 				}
 			}
@@ -93,7 +99,7 @@ func messageWrites(fn *ssa.Function) []write {
 				if !ok {
 					k = "<" + describe(x.Key) + ">"
 				}
-				out = append(out, write{fn, ownerOfHeader(x.Map), "header:" + k, describe(x.Value), ins})
+				out = append(out, write{fn, ownerOfHeader(x.Map), "header:" + k, describe(x.Value), ins, siteOf(ins), guardsAt(ins)})
 			}
 		case *ssa.Call:
 			cn := calleeName(x.Common())
@@ -107,13 +113,13 @@ func messageWrites(fn *ssa.Function) []write {
 				if len(x.Common().Args) > 2 {
 					v = describe(x.Common().Args[2])
 				}
-				out = append(out, write{fn, ownerOfHeader(x.Common().Args[0]), "header:" + strings.TrimPrefix(cn, "(net/http.Header).") + " " + k, v, ins})
+				out = append(out, write{fn, ownerOfHeader(x.Common().Args[0]), "header:" + strings.TrimPrefix(cn, "(net/http.Header).") + " " + k, v, ins, siteOf(ins), guardsAt(ins)})
 			case "builtin delete":
 				if typeStr(x.Common().Args[0].Type()) == "net/http.Header" {
-					out = append(out, write{fn, ownerOfHeader(x.Common().Args[0]), "header:delete <" + describe(x.Common().Args[1]) + ">", "", ins})
+					out = append(out, write{fn, ownerOfHeader(x.Common().Args[0]), "header:delete <" + describe(x.Common().Args[1]) + ">", "", ins, siteOf(ins), guardsAt(ins)})
 				}
 			case "(*net/http.Request).SetBasicAuth":
-				out = append(out, write{fn, "request", "header:Set Authorization", "basic", ins})
+				out = append(out, write{fn, "request", "header:Set Authorization", "basic", ins, siteOf(ins), guardsAt(ins)})
 			}
 		}
 	})
@@ -310,8 +316,8 @@ func c01r4(r *R) {
 					up = describe(c.(*ssa.Call))
 				}
 			}
-			guard := guardedBy(w.at.Block(), eq("("+up+` != "")`))
-			after := mod != nil && instrDominates(mod, w.at)
+			guard := holdsAmong(w.conds, "("+up+` != "")`)
+			after := mod != nil && instrDominates(mod, w.site)
 			switch name {
 			case "Connection":
 				r.check(guard && after && w.val == `"Upgrade"`, spec.recv+"."+spec.fn+"#re-add(Connection)", w.at.Pos(), "Connection: Upgrade only for an upgrade request, after the modifiers", "Connection re-added as "+w.val+" (guard ok="+fmt.Sprint(guard)+", after modifiers="+fmt.Sprint(after)+")")
@@ -330,10 +336,10 @@ func c01r4(r *R) {
 	}
 	// forwarded modifier, per path
 	fm := r.fn(mpkg+"/header", "NewForwardedModifier")
-	if len(fm.AnonFuncs) != 1 {
+	if len(anonFuncs(fm)) != 1 {
 		r.missing("forwarded modifier closure")
 	}
-	lit := fm.AnonFuncs[0]
+	lit := anonFuncs(fm)[0]
 	ps, _ := enumPaths(lit, 4096, 1)
 	fills := map[string]string{"X-Forwarded-Proto": "$0.URL.Scheme", "X-Forwarded-Host": "$0.Host", "X-Forwarded-Url": "(*net/url.URL).String($0.URL)"}
 	bad := map[string]string{}
@@ -503,7 +509,7 @@ func bodyClosedOnEveryExit(r *R) {
 }
 
 func c01r9(r *R) {
-	for _, fn := range r.modFuncs() {
+	for _, fn := range r.modFuncsAll() {
 		nm := fname(fn)
 		if strings.HasPrefix(nm, "e2e/") || strings.Contains(nm, "utils/") || strings.HasPrefix(nm, "cmd/") || strings.Contains(nm, "/testing.") || strings.Contains(nm, "martiantest") {
 			continue
